@@ -122,3 +122,12 @@ package state
 //@   ensures [ownStorage] r.dirtyStorage != old(s.dirtyStorage) && r.originStorage != old(s.originStorage) && r.pendingStorage != old(s.pendingStorage)
 //@   ensures [ownStorageIsNew] fresh(r.dirtyStorage) && fresh(r.originStorage) && fresh(r.pendingStorage)
 //@   ensures [scalarsCopied] r.address == old(s.address) && r.suicided == old(s.suicided) && r.dirtyCode == old(s.dirtyCode) && r.deleted == old(s.deleted) && r.data.Nonce == old(s.data.Nonce)
+
+// ---------------------------------------------------------------- C17: the state the pool validates against
+// Nonce and balance as functions of (state, address) for the duration of one call of a reader.
+//@ spec func stNonce(s *StateDB, a common.Address) int
+//@ spec func stBal(s *StateDB, a common.Address) int
+//@ trusted func (s *StateDB) GetNonce(addr common.Address) (r uint64)
+//@   ensures r == stNonce(s, addr)
+//@ trusted func (s *StateDB) GetBalance(addr common.Address) (r *big.Int)
+//@   ensures r != nil && r.v == stBal(s, addr)
